@@ -198,11 +198,22 @@ class _ExtFinder(importlib.abc.MetaPathFinder, importlib.abc.Loader):
         pass
 
 
-def install():
-    """Idempotent. After it, `import awkward` gives /repo/src/awkward served by pydrv."""
+def install(reexec_hashseed=False):
+    """Idempotent. After it, `import awkward` gives /repo/src/awkward served by pydrv.
+
+    reexec_hashseed=True re-executes the interpreter with PYTHONHASHSEED=0 when the variable is unset (string
+    hashing cannot be changed in a running process).  pyshim itself never depends on hash order (parameters
+    are always sent in sorted key order, as std::map keeps them); the option only pins the order of Python
+    `set`s inside /repo's own Python code."""
     global _installed
     if _installed:
         return
+    if os.environ.get("PYTHONHASHSEED") is None:
+        if reexec_hashseed and getattr(sys, "argv", None) and os.path.exists(sys.argv[0]):
+            env = dict(os.environ)
+            env["PYTHONHASHSEED"] = "0"
+            os.execve(sys.executable, [sys.executable] + sys.argv, env)
+        os.environ["PYTHONHASHSEED"] = "0"  # inherited by child processes (drivers, test runners)
     if VERIF not in sys.path:
         sys.path.insert(0, VERIF)
     if "awkward" in sys.modules and not getattr(sys.modules["awkward"], "__file__", "").startswith(REPO_SRC):
